@@ -141,6 +141,9 @@ def _run(ctx):
     def note_diff(k, d):
         maxdiff[k] = max(maxdiff.get(k, 0.0), float(d))
 
+    # ===================================================================== call histories (run FIRST: nothing has been called yet)
+    history_checks(ctx, real)
+
     # ===================================================================== driver streams
     lines, meta = [], []
 
@@ -788,6 +791,200 @@ def find_peaks_checks(ctx, real, LMAXS):
             **m, n_misses=len(misses), expected="a returned peak within 2pi/res of the true maximum"), found=True)
 
 
+# --------------------------------------------------------------------------- call histories
+NORMALIZATIONS = ("integral", "component", "norm")
+
+
+def norm_factors(lmax, normalization):
+    """per-degree factor documented for ToS2Grid: values = sum_l n_l sum_m c_lm Y_lm(x) with the 'integral' harmonics"""
+    if normalization == "component":
+        return [math.sqrt(4 * PI) / math.sqrt(2 * l + 1) / math.sqrt(lmax + 1) for l in range(lmax + 1)]
+    if normalization == "norm":
+        return [math.sqrt(4 * PI) / math.sqrt(lmax + 1) for l in range(lmax + 1)]
+    return [1.0] * (lmax + 1)
+
+
+def run_history(real, steps, seed):
+    """execute a sequence of calls on freshly built SphericalTensor objects and check EVERY call against the
+    history-free reference (explicit harmonic sum in float64 at the points the call reports; signal_xyz as well where it
+    applies).  steps: list of dicts  {op: grid|plot|peaks|xyz, obj: int, lmax, pv, pa, res, norm, dtype: 32|64}
+    returns (index of the first failing step or None, per-step records)"""
+    torch, io = real.torch, real.io
+    g = torch.Generator().manual_seed(seed)
+    objs, sigs = {}, {}
+    recs = []
+    first_bad = None
+    for k, stp in enumerate(steps):
+        lmax, pv, pa, res = stp["lmax"], stp["pv"], stp["pa"], stp["res"]
+        ok_ = stp["obj"]
+        if ok_ not in objs:
+            objs[ok_] = io.SphericalTensor(lmax, pv, pa)  # a NEW object per id (not the harness' cached ones)
+            sigs[ok_] = torch.randn(objs[ok_].dim, generator=g, dtype=torch.float64)
+        st, c64 = objs[ok_], sigs[ok_]
+        dt = torch.float32 if stp.get("dtype", 64) == 32 else torch.float64
+        tol = 3e-4 if dt == torch.float32 else 1e-10
+        c = c64.to(dt)
+        cref = c.double()
+        nvec = torch.tensor([f for l, f in enumerate(norm_factors(lmax, stp.get("norm", "integral"))) for _ in range(2 * l + 1)],
+                            dtype=torch.float64)
+        old = torch.get_default_dtype()
+        torch.set_default_dtype(dt)
+        try:
+            rec = dict(step=k, **stp)
+            if stp["op"] in ("grid", "plot"):
+                if stp["op"] == "plot":
+                    stt, _ = status_of(lambda: st.plot(c, res=res, normalization=stp["norm"]))
+                    rec["plot_status"] = stt
+                stt, ret = status_of(lambda: st.signal_on_grid(c, res, normalization=stp["norm"]))
+                rec["status"] = stt
+                if stt == "ok":
+                    grid, vals = ret
+                    want = real.Y(lmax, grid.double()) @ (nvec * cref)
+                    scale = max(1.0, float(want.abs().max()))
+                    d = float((vals.double() - want).abs().max()) / scale
+                    if pv == 1 and stp["norm"] == "integral":
+                        d = max(d, float((vals.double() - st.signal_xyz(cref, grid.double())).abs().max()) / scale)
+                    rec.update(diff=d, dtype_out=str(vals.dtype), grid_dtype=str(grid.dtype))
+                    bad = d > tol or vals.dtype != dt or grid.dtype != dt
+                else:
+                    bad = True
+            elif stp["op"] == "peaks":
+                stt, ret = status_of(lambda: st.find_peaks(c, res))
+                rec["status"] = stt
+                if stt == "ok":
+                    pos, val = ret
+                    want = real.Y(lmax, pos.double()) @ cref
+                    scale = max(1.0, float(want.abs().max()))
+                    d = float((val.double() - want).abs().max()) / scale
+                    rec.update(diff=d, n_peaks=len(pos))
+                    bad = d > tol
+                else:
+                    # torch.stack([]) when a grid has no peak is the known finding, independent of the history
+                    rec["known_crash"] = stt == "error:RuntimeError"
+                    bad = stt != "error:RuntimeError"
+            else:  # xyz: signal_xyz itself must not be disturbed either
+                r = torch.randn(5, 3, generator=g, dtype=torch.float64).to(dt)
+                stt, val = status_of(lambda: st.signal_xyz(c, r))
+                rec["status"] = stt
+                if pv == 1:
+                    if stt == "ok":
+                        want = real.Y(lmax, r.double()) @ cref
+                        d = float((val.double() - want).abs().max()) / max(1.0, float(want.abs().max()))
+                        rec["diff"] = d
+                        bad = d > tol
+                    else:
+                        bad = True
+                else:
+                    bad = stt != "error:ValueError"  # known finding, history independent
+        finally:
+            torch.set_default_dtype(old)
+        rec["bad"] = bool(bad)
+        recs.append(rec)
+        if bad and first_bad is None:
+            first_bad = k
+            break
+    return first_bad, recs
+
+
+def history_checks(ctx, real):
+    """results must not depend on the call history: sequences of signal_on_grid(normalization=n) / plot / find_peaks /
+    signal_xyz over the same and different SphericalTensor objects sharing (lmax, res), with different normalizations,
+    parities and dtypes, in both orders; every call is checked against the history-free reference."""
+    rng = ctx.rng
+    thorough = ctx.tier == "thorough"
+    fresh = [0]
+
+    def fresh_res(lmax):
+        # a resolution no other part of this run uses for this lmax: the first call of a sequence is really the first
+        fresh[0] += 1
+        return 2 * (lmax + 1) + 100 + 2 * fresh[0]
+
+    seqs = []
+
+    def step(op, obj, lmax, res, norm="integral", pv=1, pa=-1, dtype=64):
+        return dict(op=op, obj=obj, lmax=lmax, pv=pv, pa=pa, res=res, norm=norm, dtype=dtype)
+
+    # ---- deterministic: every ordered pair of normalizations, same object, same (lmax, res); then back again
+    for lmax in (2, 4):
+        for n1 in NORMALIZATIONS:
+            for n2 in NORMALIZATIONS:
+                res = fresh_res(lmax)
+                seqs.append((f"pair:{n1}->{n2}", [step("grid", 0, lmax, res, n1), step("grid", 0, lmax, res, n2), step("grid", 0, lmax, res, n1),
+                                                  step("xyz", 0, lmax, res)]))
+    # ---- different objects (other parities) with the same (lmax, res), both orders
+    for (pv1, pa1), (pv2, pa2) in (((1, -1), (1, 1)), ((1, 1), (-1, -1)), ((-1, 1), (1, -1)), ((1, -1), (1, -1))):
+        for n1, n2 in (("component", "integral"), ("integral", "norm"), ("norm", "component")):
+            res = fresh_res(3)
+            seqs.append((f"objects:{pv1}{pa1}/{n1}->{pv2}{pa2}/{n2}",
+                         [step("grid", 0, 3, res, n1, pv1, pa1), step("grid", 1, 3, res, n2, pv2, pa2), step("grid", 0, 3, res, n1, pv1, pa1),
+                          step("grid", 1, 3, res, "integral", pv2, pa2)]))
+    # ---- plot / find_peaks (they go through signal_on_grid), both orders
+    for n in ("component", "norm"):
+        res = fresh_res(4)
+        seqs.append((f"plot:{n}->grid", [step("plot", 0, 4, res, n), step("grid", 0, 4, res, "integral"), step("peaks", 0, 4, res)]))
+        res = fresh_res(4)
+        seqs.append((f"grid:{n}->peaks", [step("grid", 0, 4, res, n), step("peaks", 0, 4, res), step("grid", 0, 4, res, "integral")]))
+        res = fresh_res(4)
+        seqs.append((f"peaks->grid:{n}", [step("peaks", 0, 4, res), step("grid", 0, 4, res, n), step("peaks", 1, 4, res, pa=1), step("grid", 0, 4, res, n)]))
+    # find_peaks at its default resolution after a 'component' evaluation at res=100 (the docstring scenario)
+    seqs.append(("grid:component@100->peaks@100", [step("grid", 0, 4, 100, "component"), step("peaks", 0, 4, 100), step("grid", 0, 4, 100, "integral")]))
+    # ---- dtypes (default dtype switched between the calls), both orders
+    for d1, d2 in ((32, 64), (64, 32)):
+        for n1, n2 in (("integral", "integral"), ("component", "integral")):
+            res = fresh_res(2)
+            seqs.append((f"dtype:{d1}/{n1}->{d2}/{n2}", [step("grid", 0, 2, res, n1, dtype=d1), step("grid", 0, 2, res, n2, dtype=d2),
+                                                        step("grid", 0, 2, res, n1, dtype=d1), step("peaks", 0, 2, res, dtype=d2)]))
+    # ---- seeded: random sequences over two keys (one fresh, one shared by all sequences: long histories accumulate)
+    n_rand = 40 if thorough else 12
+    for i in range(n_rand):
+        lmax = rng.choice([1, 2, 3, 5] if thorough else [1, 2, 3])
+        keys = [fresh_res(lmax), 2 * (lmax + 1) + 90]
+        objs = [(rng.choice([1, -1]), rng.choice([1, -1])) for _ in range(3)]
+        seq = []
+        for _ in range(rng.randint(4, 9)):
+            o = rng.randrange(3)
+            op = rng.choice(["grid", "grid", "grid", "plot", "peaks", "xyz"])
+            seq.append(step(op, f"s{i}.{o}", lmax, rng.choice(keys), rng.choice(NORMALIZATIONS) if op in ("grid", "plot") else "integral",
+                            objs[o][0], objs[o][1], rng.choice([64, 64, 32])))
+        seqs.append((f"seeded:{i}", seq))
+
+    failures = []
+    worst = {32: 0.0, 64: 0.0}
+    ncalls = 0
+    shared_log = []  # every executed step on a key that several sequences share, in order: part of their history
+    for name, seq in seqs:
+        seed = ctx.seed * 1009 + len(name) + ncalls
+        bad, recs = run_history(real, seq, seed)
+        shared_before = list(shared_log)
+        shared_log += [q for q in seq[:len(recs)] if name.startswith("seeded") and q["res"] == 2 * (q["lmax"] + 1) + 90]
+        for r in recs:
+            ncalls += 1
+            ctx.case(("history", name, r["step"], r["op"], r.get("norm"), r.get("dtype")), sample_every=40)
+            ctx.count(f"history:{r['op']}:{r.get('norm', '-') if r['op'] in ('grid', 'plot') else '-'}:f{r.get('dtype', 64)}:{r.get('status')}")
+            if "diff" in r and not r["bad"]:
+                worst[r.get("dtype", 64)] = max(worst[r.get("dtype", 64)], r["diff"])
+        if bad is not None:
+            uses_shared = any(q["res"] == 2 * (q["lmax"] + 1) + 90 for q in seq[:bad + 1]) and name.startswith("seeded")
+            prefix = [q for q in shared_before if q["lmax"] == seq[0]["lmax"]] if uses_shared else []
+            failures.append(dict(sequence_name=name, seed=seed, steps=prefix + seq[:bad + 1], failing_step=recs[bad],
+                                 self_contained_sequence=not uses_shared))
+    ctx.traces += len(seqs)
+    ctx.notes["history"] = dict(sequences=len(seqs), calls=ncalls, failures=len(failures),
+                                max_diff_f64=float(f"{worst[64]:.3g}"), max_diff_f32=float(f"{worst[32]:.3g}"))
+    ctx.obligation("history:every-call-equals-the-history-free-reference", not failures,
+                   "; ".join(f"{f['sequence_name']} step {f['failing_step']['step']} {f['failing_step'].get('op')} "
+                             f"norm={f['failing_step'].get('norm')} status={f['failing_step'].get('status')} diff={f['failing_step'].get('diff')}"
+                             for f in failures[:5]))
+    if failures:
+        # the shortest failing history is the replay; does the same final call succeed on its own (fresh process state)?
+        f = min(failures, key=lambda q: (not q["self_contained_sequence"], len(q["steps"])))
+        ctx.violation("signal_on_grid/depends-on-call-history", dict(
+            call="the calls in `steps`, in this order, in one process (each obj id is a new io.SphericalTensor(lmax, pv, pa); signal = randn)",
+            **f, n_failing_sequences=len(failures), other_failing=[q["sequence_name"] for q in failures[:12]],
+            expected="every call returns, at the points it reports, sum_l n_l(normalization) sum_m c_lm Y_lm(x) "
+                     "(= signal_xyz for the default 'integral'), whatever was called before"), found=True)
+
+
 def replay(ctx, path):
     """./check C18 --replay replays/<file>.json"""
     warnings.filterwarnings("ignore")
@@ -797,6 +994,12 @@ def replay(ctx, path):
     torch.set_default_dtype(torch.float64)
     key = rep.get("key", "")
     print("replaying", key)
+    if key == "signal_on_grid/depends-on-call-history":
+        bad, recs = run_history(real, rep["steps"], rep["seed"])
+        for r in recs:
+            print({k: r[k] for k in ("step", "op", "obj", "lmax", "pv", "pa", "res", "norm", "dtype", "status", "diff", "bad") if k in r})
+        print("history-free" if bad is None else f"step {bad} disagrees with the history-free reference")
+        return 0 if bad is None else 1
     if key.startswith("find_peaks"):
         st = real.st(rep["lmax"], 1, -1)
         stt, dmin, dtop, n = peak_test(real, st, rep["direction"], rep["res"])
